@@ -2,31 +2,46 @@ import JF.Model.CellTaggers
 import JF.Model.FactorMaps
 import JF.Lemmas.FactorCells
 import JF.Lemmas.FactorMaps
+import JF.Lemmas.FactorSpec
 /-!
 # C10 — Cell-based and file-based factor decompositions cover each partner exactly once
 
+Definitions used in the statements (`nonNearby`, `others`, `InterType`, `IntraType`, `WellFormed`,
+`Tidy`) and the helper lemmas live in `JF/Lemmas/FactorSpec.lean`, `FactorCells.lean`,
+`FactorMaps.lean`; the executable models in `JF/Model/CellTaggers.lean`, `JF/Model/FactorMaps.lean`.
+
 ## Cell half
-The model (`JF.Model.CellTaggers`) has the four cell taggers, the walker domain of the cell-veto
-event handler with the target-cell computation of `send_event_time`, and the mediator's
-`get_arguments_cell_veto_event_handler`, over an occupancy state given as data.
-Main theorems: `cell_partition_veto`, `cell_partition_bounding` (+ corollaries `cell_targets_nodup`,
-`cell_target_exactly_one_family`), resting on `veto_domain_translate` (the walker domain translated
-to the active cell is exactly the set of non-nearby cells, each once) and `cells_split`
-(nearby / non-nearby are complementary).
+Model: the four cell taggers, the walker domain of the cell-veto event handler with the target-cell
+computation of `send_event_time`, and the mediator's `get_arguments_cell_veto_event_handler`, over
+an occupancy state given as data satisfying the explicit invariant `OccInv`.
+Main theorems: `cell_partition_veto`, `cell_partition_bounding` (permutation = equality as
+multisets), corollaries `cell_targets_nodup`, `cell_target_exactly_one_family`; they rest on
+`veto_domain_translate` (the walker domain translated to the active cell is exactly the set of
+non-nearby cells, each once), `cells_split` (nearby / non-nearby are complementary) and
+`veto_key_is_item`.  All for every dimension, every grid, every number of layers (also layers
+that wrap around the torus), every occupancy state.
+
+## Factor-file half
+Model: the parsing loop, `append_to_map`, the `local` setter, the four yield functions, the
+fall-back map and the tagger's `set`.
+Main theorems: `instantiate_ok_iff` (accepted = well-formed), `factor_spec_inter`,
+`factor_spec_intra`, `factor_spec_no_composite`, `factor_default` (what is yielded, as an equation
+of lists), `factor_inter_nodup`, `factor_intra_nodup` (each once), `tagger_spec` (active composite
+object: de-duplicated union), `factor_file_total` (the packaged statement), and
+`shipped_wellformed_tidy` (all six shipped files satisfy its hypotheses).
+Named error outcome: `intra_type_unmentioned_leaf_keyerror`.
+
+`factor_symmetric` + `shipped_mirrored`: with mirrored lines (all shipped files) both members of an
+inter-object factor see it.
+
+Not proved here (named gaps): that
+`SingleActiveCellOccupancy` establishes `OccInv` (property C11); the float detour of the real
+`translate` / `relative_cell` (checked by the correspondence run against the integer torus).
 -/
 namespace JF.C10
 open JF.CellTaggers
 
 /-! ## cell half -/
-
-/-- the cells of the grid that are not nearby `c`, in grid order -/
-def nonNearby (g : Grid) (c : Cell) : List Cell := (allCells g.n).filter fun x => !(isNearby g c x)
-
-theorem nodup_nonNearby (g : Grid) (c : Cell) : (nonNearby g c).Nodup :=
-  (nodup_allCells g.n).filter _
-
-theorem vetoDomain_eq (g : Grid) : vetoDomain g = nonNearby g (zeroCell g.n) := by
-  simp [vetoDomain, vetoDomainKeyed, nonNearby, List.map_map, Function.comp_def]
 
 /-- The table of derivative bounds is keyed by `relative_cell(cell, zero_cell)` but looked up with
 the walker item `cell`: the two coincide, so the look-up in `send_event_time` cannot miss. -/
@@ -74,16 +89,6 @@ theorem cells_split (g : Grid) (ac : Cell) (hac : Valid g.n ac) :
     exact ⟨fun h => h.2, fun h => ⟨nearby_valid hac h, h⟩⟩
   exact (h1.symm.append (List.Perm.refl _)).trans (List.filter_append_perm _ _)
 
-theorem vetoArgs_filterMap (s : Occ) (c : Cell) : (vetoArgs s c).filterMap id = s.occ c := by
-  unfold vetoArgs
-  split
-  · rename_i h
-    have : s.occ c = [] := by simpa using h
-    simp [this]
-  · induction s.occ c with
-    | nil => rfl
-    | cons x xs ih => simp
-
 /-- with at most one occupant per cell (the shipped leaf-unit cell-veto set-up) the mediator hands
 exactly one argument to `send_out_state` -/
 theorem vetoArgs_single (s : Occ) (c : Cell) (h : (s.occ c).length ≤ 1) : (vetoArgs s c).length = 1 := by
@@ -94,62 +99,6 @@ theorem vetoArgs_single (s : Occ) (c : Cell) (h : (s.occ c).length ≤ 1) : (vet
     have : s.occ c ≠ [] := by simpa using hne
     have : 0 < (s.occ c).length := List.length_pos_iff.mpr this
     simp; omega
-
-theorem targetsVeto_eq (g : Grid) (s : Occ) (ac : Cell) (a : Ident) (h : s.active = some (ac, a)) :
-    targetsVeto g s = ((vetoDomain g).map (translate g.n ac)).flatMap s.occ := by
-  simp only [targetsVeto, vetoTargets, h]
-  induction vetoDomain g with
-  | nil => rfl
-  | cons r rs ih =>
-    simp only [List.map_cons, List.flatMap_cons]
-    rw [ih, vetoArgs_filterMap]
-
-theorem flatMap_filter_nonempty {α β : Type} (f : α → List β) (p : α → Bool) (l : List α) :
-    (l.filter fun c => !(f c).isEmpty && p c).flatMap f = (l.filter p).flatMap f := by
-  induction l with
-  | nil => rfl
-  | cons x xs ih =>
-    by_cases hp : p x = true <;> by_cases he : (f x).isEmpty = true
-    · have : f x = [] := by simpa using he
-      simp [hp, ih, this]
-    · simp [hp, he, ih]
-    · simp [hp, he, ih]
-    · simp [hp, he, ih]
-
-theorem targetsBounding_eq (g : Grid) (s : Occ) (ac : Cell) (a : Ident) (h : s.active = some (ac, a)) :
-    targetsBounding g s = (nonNearby g ac).flatMap s.occ := by
-  simp only [targetsBounding, cellBoundingTagger, h, nonNearby]
-  rw [← flatMap_filter_nonempty s.occ (fun x => !(isNearby g ac x))]
-  induction (allCells g.n).filter fun c => !(s.occ c).isEmpty && !(isNearby g ac c) with
-  | nil => rfl
-  | cons x xs ih => simp [List.flatMap_cons, ih]
-
-theorem pairTargets_pairs {α : Type} (a : Ident) (f : α → List Ident) (l : List α) :
-    pairTargets (l.flatMap fun x => (f x).map fun o => [a, o]) = l.flatMap f := by
-  have inner : ∀ ys : List Ident, (ys.map fun o => [a, o]).flatMap List.tail = ys := by
-    intro ys
-    induction ys with
-    | nil => rfl
-    | cons y ys ih => simp [List.flatMap_cons, ih]
-  induction l with
-  | nil => rfl
-  | cons x xs ih =>
-    simp only [pairTargets] at ih ⊢
-    simp [List.flatMap_cons, List.flatMap_append, inner, ih]
-
-theorem targetsExcluded_eq (g : Grid) (s : Occ) (ac : Cell) (a : Ident) (h : s.active = some (ac, a)) :
-    targetsExcluded g s = (nearby g ac).flatMap s.occ := by
-  simp only [targetsExcluded, excludedCellsTagger, h]
-  exact pairTargets_pairs a s.occ _
-
-theorem targetsSurplus_eq (s : Occ) (ac : Cell) (a : Ident) (h : s.active = some (ac, a)) :
-    targetsSurplus s = s.yieldSurplus := by
-  simp only [targetsSurplus, surplusCellsTagger, h]
-  induction s.yieldSurplus with
-  | nil => rfl
-  | cons x xs ih =>
-    simp only [pairTargets] at ih ⊢
-    simp [List.flatMap_cons, ih]
 
 /-- The explicit invariant of the occupancy state the theorems need (that `SingleActiveCellOccupancy`
 maintains it is property C11): the active unit is `a` in the valid cell `ac`, and the stored
@@ -243,33 +192,6 @@ theorem instates_start_with_active (g : Grid) (s : Occ) (ac : Cell) (a : Ident) 
 
 /-! ## factor-file half -/
 open JF.FactorMaps
-
-/-- the other composite objects, in the order of `range(number_of_root_nodes)` -/
-def others (s : Setting) (r : Nat) : List Nat := (List.range s.nRoots).filter fun o => o != r
-
-/-- `ty` is an inter-object factor type of the file: one of its lines names a point mass of the
-second composite object -/
-def InterType (s : Setting) (lines : List Line) (ty : String) : Prop :=
-  ∃ S ∈ linesOf lines ty, ∃ t ∈ S, s.nPer ≤ t
-
-/-- `ty` is an intra-object factor type of the file: it occurs, and all its lines stay within the
-first composite object -/
-def IntraType (s : Setting) (lines : List Line) (ty : String) : Prop :=
-  linesOf lines ty ≠ [] ∧ ∀ S ∈ linesOf lines ty, ∀ t ∈ S, t < s.nPer
-
-theorem match_lookup_eq_getL {β : Type} (m : IndexMap) (i : Nat) (f : List Nat → β) :
-    (match m.lookup i with | none => [] | some ls => ls.map f) = (getL m i).map f := by
-  unfold getL
-  cases m.lookup i <;> rfl
-
-/-- the dictionary entry of a type that occurs in an accepted file -/
-theorem lookup_of_lines {s : Setting} {lines : List Line} {fs : Factors} {ty : String}
-    (h : instantiate s lines [] = .ok fs) (hne : linesOf lines ty ≠ []) :
-    ∃ tm, fs.lookup ty = some tm ∧ GoodTy s (linesOf lines ty) tm := by
-  have hg := good_of_instantiate h
-  cases hl : fs.lookup ty with
-  | none => exact absurd (hg.1 _ hl) hne
-  | some tm => exact ⟨tm, rfl, hg.2 _ _ hl⟩
 
 /-- **C10, factor half, inter-object factor types.**  For an accepted file, an inter-object type
 `ty`, composite objects with more than one point mass and a valid active point mass `(r, i)`:
@@ -427,44 +349,6 @@ theorem factor_spec_intra_sets (s : Setting) (lines : List Line) (fs : Factors) 
 
 /-! ### each in-state once -/
 
-theorem instFun_injective (n r o : Nat) (hor : o ≠ r) :
-    Function.Injective fun t : Nat => if t < n then [r, t] else [o, t - n] := by
-  intro t t' h
-  dsimp only at h
-  split at h <;> split at h <;> simp only [List.cons.injEq, and_true] at h
-  · exact h.2
-  · exact absurd h.1.symm hor
-  · exact absurd h.1 hor
-  · omega
-
-theorem inst_injective (n r o : Nat) (hor : o ≠ r) : Function.Injective (inst n r o) :=
-  List.map_injective_iff.mpr (instFun_injective n r o hor)
-
-/-- an instantiated line that reaches into the other composite object tells which one it is -/
-theorem inst_other_eq {n r o o' : Nat} {S S' : List Nat} (hor : o ≠ r) (t : Nat) (ht : t ∈ S) (htn : n ≤ t)
-    (h : inst n r o S = inst n r o' S') : o = o' := by
-  have hm : [o, t - n] ∈ inst n r o S := by
-    simp only [inst, List.mem_map]
-    exact ⟨t, ht, by simp [Nat.not_lt.mpr htn]⟩
-  rw [h] at hm
-  simp only [inst, List.mem_map] at hm
-  obtain ⟨t', _, ht'⟩ := hm
-  split at ht' <;> simp only [List.cons.injEq, and_true] at ht'
-  · exact absurd ht'.1.symm hor
-  · exact ht'.1.symm
-
-theorem inst_same_injOn (n r : Nat) : ∀ (S S' : List Nat), (∀ t ∈ S, t < n) → (∀ t ∈ S', t < n) →
-    inst n r r S = inst n r r S' → S = S'
-  | [], [], _, _, _ => rfl
-  | [], _ :: _, _, _, h => by simp [inst] at h
-  | _ :: _, [], _, _, h => by simp [inst] at h
-  | t :: S, t' :: S', hS, hS', h => by
-    simp only [inst, List.map_cons, List.cons.injEq] at h
-    have h1 := hS t (by simp)
-    have h2 := hS' t' (by simp)
-    simp only [h1, h2, if_true, List.cons.injEq, and_true, true_and] at h
-    rw [h.1, inst_same_injOn n r S S' (fun x hx => hS x (by simp [hx])) (fun x hx => hS' x (by simp [hx])) h.2]
-
 /-- **each inter-object in-state once**: if the file does not repeat a line of the type and every
 line is an index set, the in-states yielded for `(r, i)` are pairwise different -/
 theorem factor_inter_nodup (s : Setting) (lines : List Line) (fs : Factors) (ty : String) (r i : Nat)
@@ -518,54 +402,10 @@ theorem factor_intra_nodup (s : Setting) (lines : List Line) (fs : Factors) (ty 
 
 /-! ### the tagger: union over the active leaves, de-duplicated -/
 
-theorem yieldAll_ok {s : Setting} {fs : Factors} {ty : String} : ∀ {leaves : List Ident} {l : List InState},
-    yieldAll s fs ty leaves = .ok l →
-    ∀ f, f ∈ l ↔ ∃ leaf ∈ leaves, ∃ l', yieldFactor s fs ty leaf = .ok l' ∧ f ∈ l'
-  | [], l, h, f => by
-    simp only [yieldAll] at h
-    injection h with h
-    subst h; simp
-  | a :: rest, l, h, f => by
-    simp only [yieldAll] at h
-    split at h
-    · cases h
-    · rename_i la hla
-      split at h
-      · cases h
-      · rename_i lr hlr
-        injection h with h
-        subst h
-        rw [List.mem_append, yieldAll_ok hlr f]
-        constructor
-        · rintro (hf | ⟨leaf, hleaf, l', hl', hf⟩)
-          · exact ⟨a, by simp, la, hla, hf⟩
-          · exact ⟨leaf, by simp [hleaf], l', hl', hf⟩
-        · rintro ⟨leaf, hleaf, l', hl', hf⟩
-          rcases List.mem_cons.mp hleaf with rfl | hleaf
-          · rw [hla] at hl'; injection hl' with hl'; subst hl'; exact Or.inl hf
-          · exact Or.inr ⟨leaf, hleaf, l', hl', hf⟩
-
-theorem yieldAll_error {s : Setting} {fs : Factors} {ty : String} : ∀ {leaves : List Ident} {e : String},
-    yieldAll s fs ty leaves = .error e → ∃ leaf ∈ leaves, yieldFactor s fs ty leaf = .error e
-  | [], e, h => by simp [yieldAll] at h
-  | a :: rest, e, h => by
-    simp only [yieldAll] at h
-    split at h
-    · rename_i e' he'
-      injection h with h
-      subst h; exact ⟨a, by simp, he'⟩
-    · split at h
-      · rename_i e' he'
-        injection h with h
-        subst h
-        obtain ⟨leaf, hleaf, hl⟩ := yieldAll_error he'
-        exact ⟨leaf, by simp [hleaf], hl⟩
-      · cases h
-
 /-- **C10, factor half, active composite object.**  The tagger yields every in-state that some
 active leaf yields, and each exactly once (the in-state of a factor with several active members
 is not duplicated). -/
-theorem tagger_spec (s : Setting) (fs : Factors) (ty : String) (leaves : List Ident) (l : List InState)
+theorem tagger_spec (s : Setting) (fs : Factors) (ty : String) (leaves : List FactorMaps.Ident) (l : List InState)
     (h : taggerYield s fs ty leaves = .ok l) :
     l.Nodup ∧ ∀ f, f ∈ l ↔ ∃ leaf ∈ leaves, ∃ l', yieldFactor s fs ty leaf = .ok l' ∧ f ∈ l' := by
   simp only [taggerYield] at h
@@ -577,7 +417,7 @@ theorem tagger_spec (s : Setting) (fs : Factors) (ty : String) (leaves : List Id
     exact ⟨nodup_dedupe _, fun f => by rw [mem_dedupe]; exact yieldAll_ok hla f⟩
 
 /-- the tagger fails only if one of the leaves' maps fails, with that error -/
-theorem tagger_error (s : Setting) (fs : Factors) (ty : String) (leaves : List Ident) (e : String)
+theorem tagger_error (s : Setting) (fs : Factors) (ty : String) (leaves : List FactorMaps.Ident) (e : String)
     (h : taggerYield s fs ty leaves = .error e) :
     ∃ leaf ∈ leaves, yieldFactor s fs ty leaf = .error e := by
   simp only [taggerYield] at h
@@ -586,5 +426,191 @@ theorem tagger_error (s : Setting) (fs : Factors) (ty : String) (leaves : List I
     injection h with h
     subst h; exact yieldAll_error he'
   · cases h
+
+/-! ### accepted files = well-formed files -/
+
+/-- **the parser accepts exactly the well-formed files** (error outcomes `FactorSetError` for an
+index `≥ 2n` and `AttributeError` for a type of mixed locality are the only ways to fail) -/
+theorem instantiate_ok_iff (s : Setting) (lines : List Line) :
+    (∃ fs, instantiate s lines [] = .ok fs) ↔ WellFormed s.nPer lines := by
+  constructor
+  · rintro ⟨fs, h⟩
+    refine ⟨instantiate_bound h, ?_⟩
+    intro ln hln ln' hln' hty
+    have hg := good_of_instantiate h
+    have hS : ln.idx ∈ linesOf lines ln.ty := mem_linesOf.mpr ⟨ln, hln, rfl, rfl⟩
+    have hS' : ln'.idx ∈ linesOf lines ln.ty := mem_linesOf.mpr ⟨ln', hln', hty.symm, rfl⟩
+    obtain ⟨tm, _, g⟩ := lookup_of_lines h (List.ne_nil_of_mem hS)
+    obtain ⟨b, _, hall⟩ := g.loc
+    rw [hall _ hS, hall _ hS']
+  · intro hw
+    exact instantiate_ok_of (good_nil s) (by simpa using hw)
+
+/-- in a well-formed file every occurring type is intra-object or inter-object -/
+theorem intra_or_inter (s : Setting) (lines : List Line) (ty : String)
+    (hty : linesOf lines ty ≠ []) : IntraType s lines ty ∨ InterType s lines ty := by
+  by_cases h : ∀ S ∈ linesOf lines ty, ∀ t ∈ S, t < s.nPer
+  · exact Or.inl ⟨hty, h⟩
+  · right
+    simp only [not_forall] at h
+    obtain ⟨S, hS, t, ht, hlt⟩ := h
+    exact ⟨S, hS, t, ht, by omega⟩
+
+/-- **C10, factor half, packaged.**  For a well-formed tidy file, composite objects of more than
+one point mass, a factor type of the file and a valid active point mass `(r, i)`: the parser
+accepts the file, the map yields without error, no in-state twice, and an in-state is yielded iff
+it is a line `S` of the type with `i ∈ S`, instantiated for `r` and one other composite object
+`o ≠ r` (inter-object type) resp. within `r` (intra-object type). -/
+theorem factor_file_total (s : Setting) (lines : List Line) (ty : String) (r i : Nat)
+    (hw : WellFormed s.nPer lines) (ht : Tidy s.nPer lines) (hn : s.nPer ≠ 1)
+    (hty : linesOf lines ty ≠ []) (hr : r < s.nRoots) (hi : i < s.nPer) :
+    ∃ fs l, instantiate s lines [] = .ok fs ∧ yieldFactor s fs ty [r, i] = .ok l ∧ l.Nodup ∧
+      ∀ f, f ∈ l ↔ ∃ S ∈ linesOf lines ty, i ∈ S ∧
+        ((InterType s lines ty ∧ ∃ o, o < s.nRoots ∧ o ≠ r ∧ f = inst s.nPer r o S) ∨
+         (IntraType s lines ty ∧ f = inst s.nPer r r S)) := by
+  obtain ⟨fs, h⟩ := (instantiate_ok_iff s lines).mpr hw
+  have hset : ∀ S ∈ linesOf lines ty, S.Nodup := by
+    intro S hS
+    obtain ⟨ln, hln, _, rfl⟩ := mem_linesOf.mp hS
+    exact ht.1 ln hln
+  obtain ⟨S0, hS0⟩ := List.exists_mem_of_ne_nil _ hty
+  obtain ⟨ln0, hln0, hty0, rfl⟩ := mem_linesOf.mp hS0
+  have hlines : (linesOf lines ty).Nodup := hty0 ▸ ht.2.1 ln0 hln0
+  -- a type cannot be both
+  have hexcl : IntraType s lines ty → InterType s lines ty → False := by
+    rintro ⟨_, h1⟩ ⟨S, hS, t, ht', htn⟩
+    have := h1 S hS t ht'; omega
+  rcases intra_or_inter s lines ty hty with hintra | hinter
+  · have hcov : ∃ S ∈ linesOf lines ty, i ∈ S := by
+      have hloc : isLocalLine s.nPer ln0.idx = true := by
+        simp only [isLocalLine, List.all_eq_true, decide_eq_true_eq]
+        exact hintra.2 _ hS0
+      exact hty0 ▸ ht.2.2 ln0 hln0 hloc i hi
+    obtain ⟨l, hl, hnd⟩ := factor_intra_nodup s lines fs ty r i h hintra hr hi hset hlines hcov
+    refine ⟨fs, l, h, hl, hnd, ?_⟩
+    rw [factor_spec_intra_sets s lines fs ty r i h hintra hr hi hset hcov] at hl
+    injection hl with hl
+    subst hl
+    intro f
+    simp only [List.mem_map, List.mem_filter, List.contains_iff_mem]
+    constructor
+    · rintro ⟨S, ⟨hS, hiS⟩, rfl⟩
+      exact ⟨S, hS, hiS, Or.inr ⟨hintra, rfl⟩⟩
+    · rintro ⟨S, hS, hiS, (⟨hinter, _⟩ | ⟨_, rfl⟩)⟩
+      · exact (hexcl hintra hinter).elim
+      · exact ⟨S, ⟨hS, hiS⟩, rfl⟩
+  · obtain ⟨l, hl, hnd⟩ := factor_inter_nodup s lines fs ty r i h hinter hn hr hi hset hlines
+    refine ⟨fs, l, h, hl, hnd, ?_⟩
+    rw [factor_spec_inter_sets s lines fs ty r i h hinter hn hr hi hset] at hl
+    injection hl with hl
+    subst hl
+    intro f
+    simp only [List.mem_flatMap, List.mem_map, List.mem_filter, List.contains_iff_mem, others,
+      List.mem_range, bne_iff_ne, ne_eq]
+    constructor
+    · rintro ⟨o, ⟨ho, hor⟩, S, ⟨hS, hiS⟩, rfl⟩
+      exact ⟨S, hS, hiS, Or.inl ⟨hinter, o, ho, hor, rfl⟩⟩
+    · rintro ⟨S, hS, hiS, (⟨_, o, ho, hor, rfl⟩ | ⟨hintra, _⟩)⟩
+      · exact ⟨o, ⟨ho, hor⟩, S, ⟨hS, hiS⟩, rfl⟩
+      · exact (hexcl hintra hinter).elim
+
+/-- **every shipped factor-set file is well formed and tidy** for the composite-object size it is
+written for (so `factor_file_total` applies to all of them: in particular the `KeyError` outcome
+cannot occur with a shipped file).  The table `shipped` is compared with the files of the tree
+under test by the correspondence run. -/
+theorem shipped_wellformed_tidy : ∀ f ∈ shipped, WellFormed f.2.1 f.2.2 ∧ Tidy f.2.1 f.2.2 := by
+  decide
+
+/-! ### the same factor seen from its other composite object -/
+
+/-- **Symmetry of an inter-object factor.**  In a well-formed file whose type `ty` is mirrored, let
+`f = inst r o S` be an in-state yielded for the active point mass `(r, i)` (`S` a line of the
+type, `i ∈ S`) and let `(o, j)` be one of its members in the other composite object
+(`j + n ∈ S`).  Then the type has a line `S'` containing `j` whose instantiation for the active
+composite object `o` and the other one `r` is the same factor (the same identifiers, possibly in
+another order) — so by `factor_spec_inter` it is yielded when `(o, j)` is the active point mass:
+both members see the factor. -/
+theorem factor_symmetric (n : Nat) (lines : List Line) (ty : String) (r o j : Nat) (S : List Nat)
+    (hw : WellFormed n lines) (hm : Mirrored n lines ty) (hS : S ∈ linesOf lines ty)
+    (hj : j + n ∈ S) :
+    ∃ S' ∈ linesOf lines ty, j ∈ S' ∧ (inst n o r S').Perm (inst n r o S) := by
+  obtain ⟨S', hS', hp⟩ := hm S hS
+  have hb : ∀ t ∈ S, t < 2 * n := by
+    obtain ⟨ln, hln, _, rfl⟩ := mem_linesOf.mp hS
+    exact hw.1 ln hln
+  refine ⟨S', hS', ?_, ?_⟩
+  · refine hp.symm.subset ?_
+    simp only [mirror, List.mem_map]
+    exact ⟨j + n, hj, by simp⟩
+  · rw [← inst_mirror n r o S hb]
+    exact hp.map _
+
+/-- every inter-object type of every shipped file is mirrored -/
+theorem shipped_mirrored : ∀ f ∈ shipped, ∀ ln ∈ f.2.2, isLocalLine f.2.1 ln.idx = false →
+    Mirrored f.2.1 f.2.2 ln.ty := by
+  decide
+
+/-! ## non-vacuity: concrete instances of the hypotheses, and the named error outcomes -/
+
+section Examples
+
+/-- a 3 x 4 periodic grid with one neighbour layer -/
+def exGrid : Grid := ⟨[3, 4], 1⟩
+/-- six relevant units; `[4]` is active in cell (1,1); cell (2,3) is full (cap 2) with one surplus unit -/
+def exOcc : Occ :=
+  { occ := fun c => if c = [0, 0] then [[0]] else if c = [2, 3] then [[1], [2]] else if c = [1, 3] then [[5]] else []
+    surplus := [([2, 3], [[3]])]
+    active := some ([1, 1], [4]) }
+
+/-- the invariant is satisfiable by a non-trivial state (several units per cell, surplus, all three families non-empty) -/
+example : OccInv exGrid exOcc [[0], [1], [2], [3], [4], [5]] [1, 1] [4] :=
+  ⟨rfl, by decide, by decide, by decide, by decide⟩
+example : targetsVeto exGrid exOcc = [[5], [1], [2]] ∧ targetsBounding exGrid exOcc = [[5], [1], [2]] ∧
+    targetsExcluded exGrid exOcc = [[0]] ∧ targetsSurplus exOcc = [[3]] := by decide
+/-- the neighbourhood wraps around the torus in the first direction (3 cells, one layer: everything is nearby) -/
+example : vetoDomain exGrid = [[0, 2], [1, 2], [2, 2]] := by decide
+/-- occupant cap 2: the mediator hands two targets to the cell-veto handler (the leaf-unit handler then raises a
+`TypeError`: an error outcome outside the property), cf. `vetoArgs_single` -/
+example : vetoArgs exOcc [2, 3] = [some [1], some [2]] := by decide
+
+/-- `factor_set_dipoles_atomic.txt` -/
+def exDipoles : List Line := [⟨[0, 1], "Harmonic"⟩, ⟨[0, 3], "Repulsive"⟩, ⟨[1, 2], "Repulsive"⟩, ⟨[0, 2], "Coulomb"⟩,
+  ⟨[0, 3], "Coulomb"⟩, ⟨[1, 2], "Coulomb"⟩, ⟨[1, 3], "Coulomb"⟩]
+
+example : WellFormed 2 exDipoles ∧ Tidy 2 exDipoles := by decide
+example : InterType ⟨3, 2⟩ exDipoles "Coulomb" ∧ IntraType ⟨3, 2⟩ exDipoles "Harmonic" := by
+  unfold InterType IntraType; decide
+/-- the hypotheses of `factor_file_total` hold for a shipped file, three dipoles, active point mass (1, 0) -/
+example : ∃ fs, instantiate ⟨3, 2⟩ exDipoles [] = .ok fs ∧
+    yieldFactor ⟨3, 2⟩ fs "Coulomb" [1, 0] =
+      .ok [[[1, 0], [0, 0]], [[1, 0], [0, 1]], [[1, 0], [2, 0]], [[1, 0], [2, 1]]] ∧
+    yieldFactor ⟨3, 2⟩ fs "Harmonic" [1, 0] = .ok [[[1, 0], [1, 1]]] :=
+  ⟨_, rfl, by decide, by decide⟩
+
+/-- **named error outcome.**  A well-formed file whose intra-object type does not mention point mass 2 of a
+three-atom composite object: the real code (and the model) raise `KeyError` when that point mass is active,
+instead of yielding no in-state.  (`Tidy` excludes it; none of the shipped files is affected.) -/
+theorem intra_type_unmentioned_leaf_keyerror :
+    WellFormed 3 [⟨[0, 1], "Harmonic"⟩] ∧ ¬ Tidy 3 [⟨[0, 1], "Harmonic"⟩] ∧
+    ∃ fs, instantiate ⟨2, 3⟩ [⟨[0, 1], "Harmonic"⟩] [] = .ok fs ∧
+      yieldFactor ⟨2, 3⟩ fs "Harmonic" [0, 2] = .error "KeyError" :=
+  ⟨by decide, by decide, _, rfl, by decide⟩
+
+/-- files the parser rejects: an index of a third composite object, a type of mixed locality -/
+example : instantiate ⟨2, 2⟩ [⟨[0, 4], "Coulomb"⟩] [] = .error "FactorSetError" ∧
+    instantiate ⟨2, 2⟩ [⟨[0, 1], "Bond"⟩, ⟨[0, 2], "Bond"⟩] [] = .error "AttributeError" := by decide
+
+/-- an active composite object (both leaves active): the merged Coulomb factor of `factor_set_dipoles_dipole.txt`
+is yielded once per other dipole, not once per active leaf -/
+example : ∃ fs, instantiate ⟨3, 2⟩ [⟨[0, 1, 2, 3], "Coulomb"⟩] [] = .ok fs ∧
+    taggerYield ⟨3, 2⟩ fs "Coulomb" [[1, 0], [1, 1]] =
+      .ok [[[1, 0], [1, 1], [0, 0], [0, 1]], [[1, 0], [1, 1], [2, 0], [2, 1]]] :=
+  ⟨_, rfl, by decide⟩
+
+/-- non-vacuity: `[0, 3]` and `[1, 2]` of the Repulsive type are each other's mirror image;
+a file without the second line is not mirrored -/
+example : Mirrored 2 exDipoles "Repulsive" ∧ ¬ Mirrored 2 [⟨[0, 3], "Repulsive"⟩] "Repulsive" := by decide
+
+end Examples
 
 end JF.C10
